@@ -32,6 +32,32 @@ fn duke_read(bytes: &[u8]) -> Result<Result<duke::tree::class::ClassFile, ()>, S
 	}
 }
 
+
+/// hand-assembled class `A { static void m() }` whose code is `goto <off>; nop; return` (code_length 5), with one exception
+/// entry, one line-number entry, one local-variable entry and (optionally) one stack-map frame: every offset field is a
+/// parameter, so the bounds checks of the label table are exercised at and around `code_length`
+fn boundary_class(goto_off: i16, exc: Option<(u16, u16, u16)>, line_pc: Option<u16>, lv: Option<(u16, u16)>, frame_delta: Option<u16>) -> Vec<u8> {
+	let mut b: Vec<u8> = vec![0xca, 0xfe, 0xba, 0xbe, 0, 0, 0, 52];
+	let utf8 = |b: &mut Vec<u8>, s: &str| { b.push(1); b.extend((s.len() as u16).to_be_bytes()); b.extend(s.as_bytes()); };
+	b.extend(12u16.to_be_bytes());
+	utf8(&mut b, "A"); b.extend([7, 0, 1]);                       // 1, 2
+	for s in ["m", "()V", "Code", "LineNumberTable", "LocalVariableTable", "x", "I", "StackMapTable", "java/lang/Object"] { utf8(&mut b, s); } // 3..=11
+	b.extend([0, 0x21, 0, 2, 0, 0, 0, 0, 0, 0]);                // access, this, super=0, interfaces=0, fields=0
+	b.extend([0, 1, 0, 9, 0, 3, 0, 4, 0, 1]);                   // 1 method: access, name, desc, 1 attribute
+	let mut code: Vec<u8> = vec![0, 1, 0, 1, 0, 0, 0, 5, 0xa7];
+	code.extend(goto_off.to_be_bytes()); code.extend([0x00, 0xb1]);
+	match exc { None => code.extend([0, 0]), Some((s, e, h)) => { code.extend([0, 1]); for v in [s, e, h, 0] { code.extend(v.to_be_bytes()); } } }
+	let mut attrs: Vec<(u16, Vec<u8>)> = Vec::new();
+	if let Some(d) = frame_delta { let mut a = vec![0, 1, 251]; a.extend(d.to_be_bytes()); attrs.push((10, a)); }
+	if let Some(pc) = line_pc { let mut a = vec![0, 1]; a.extend(pc.to_be_bytes()); a.extend([0, 7]); attrs.push((6, a)); }
+	if let Some((st, len)) = lv { let mut a = vec![0, 1]; for v in [st, len, 8, 9, 0] { a.extend(v.to_be_bytes()); } attrs.push((7, a)); }
+	code.extend((attrs.len() as u16).to_be_bytes());
+	for (n, a) in attrs { code.extend(n.to_be_bytes()); code.extend((a.len() as u32).to_be_bytes()); code.extend(a); }
+	b.extend([0, 5]); b.extend((code.len() as u32).to_be_bytes()); b.extend(code);
+	b.extend([0, 0]);                                             // class attributes
+	b
+}
+
 fn minimal_method(code: GCode) -> GClass {
 	GClass { minor: 0, major: 52, access: 0x21, name: c01model::js("A"), super_: Some(c01model::js("java/lang/Object")),
 		methods: vec![GMethod { access: 9, name: c01model::js("m"), desc: c01model::js("()V"), code: Some(code), ..Default::default() }], ..Default::default() }
@@ -161,6 +187,32 @@ fn gen(r: &mut Rng, tier: Tier, out: &mut Out) {
 		if base.len() > 20000 { continue; }
 		let m = c01gen::mutate(r, base, out.stats);
 		out.op("read", &[Sexp::bytes(&m)]);
+	}
+	// ---- 5b. label bounds: every offset-carrying field at, below and above `code_length` (5) and inside an instruction (1, 2)
+	{
+		let offs: [u16; 8] = [0, 1, 3, 4, 5, 6, 0xffff, 0x8000];
+		for g in [-1i16, 0, 1, 2, 3, 4, 5, 6, i16::MAX, i16::MIN] { out.stats.hit("boundary:goto"); out.op("read", &[Sexp::bytes(&boundary_class(g, None, None, None, None))]); }
+		for s in offs { for e in offs { for h in [0u16, 4, 5, 6] { out.stats.hit("boundary:exception"); out.op("read", &[Sexp::bytes(&boundary_class(3, Some((s, e, h)), None, None, None))]); } } }
+		for pc in offs { out.stats.hit("boundary:line"); out.op("read", &[Sexp::bytes(&boundary_class(3, None, Some(pc), None, None))]); }
+		for st in offs { for len in [0u16, 1, 2, 5, 6, 0xffff, 0xfffb, 0xfffa] { out.stats.hit("boundary:local"); out.op("read", &[Sexp::bytes(&boundary_class(3, None, None, Some((st, len)), None))]); } }
+		for d in offs { out.stats.hit("boundary:frame"); out.op("read", &[Sexp::bytes(&boundary_class(3, None, None, None, Some(d)))]); }
+		for d in [0u16, 3, 4] { out.op("read", &[Sexp::bytes(&boundary_class(3, Some((0, 5, 4)), Some(d), Some((d, 5 - d)), Some(d)))]); }
+	}
+	// ---- 5c. class names: array class names must be array field descriptors (1..255 dimensions); object names split on '/'
+	{
+		let mut names: Vec<String> = ["[", "[x", "[I", "[II", "[L;", "[La;", "[La;x", "[La.b;", "[L[I;", "[La/b;", "[La//b;", "[L/a;", "[[Z", "[V", "a", "a/b", "a//b", "/a", "a/", "", "a.b", "a;b", "a[b", "[La;;"].iter().map(|s| s.to_string()).collect();
+		names.push(format!("{}I", "[".repeat(255)));
+		names.push(format!("{}I", "[".repeat(256)));
+		names.push(format!("{}Lx;", "[".repeat(255)));
+		for n in names {
+			let g = minimal_method(GCode { max_stack: 1, max_locals: 1, insns: vec![(None, GInsn::New(c01model::js(&n))), (None, GInsn::Simple(0xb1))], ..Default::default() });
+			out.stats.hit("directed:class-name");
+			out.op("read", &[Sexp::bytes(&assemble(&g, &Choices::plain(), &mut Rng::new(1)))]);
+			// the same string as `this_class` (must be an object class name there)
+			let mut g2 = minimal_method(GCode { max_stack: 1, max_locals: 1, insns: vec![(None, GInsn::Simple(0xb1))], ..Default::default() });
+			g2.name = c01model::js(&n);
+			out.op("read", &[Sexp::bytes(&assemble(&g2, &Choices::plain(), &mut Rng::new(1)))]);
+		}
 	}
 	// directed malformed cases: overflowing local-variable range (panic site), bad magic, version 67.1, empty input
 	out.op("read", &[Sexp::bytes(&[])]);
